@@ -2,7 +2,7 @@
 """Run the owning property's check against every property-PRESERVING change under /verif/refactors/ (false-alarm probes).
 Expected verdict: SILENT (exit 0).  ALARM (exit 1) = the check demands more than the property states - fix the check.
 usage: tools/ref_test.py [--tier quick] [name ...]   results kept in refactors/RESULTS.json"""
-import json, os, shutil, subprocess, sys, tempfile
+import fcntl, json, os, shutil, subprocess, sys, tempfile
 HERE = os.path.dirname(os.path.dirname(os.path.abspath(__file__)))
 D = os.path.join(HERE, "refactors")
 
@@ -13,7 +13,7 @@ def main():
         i = args.index("--tier"); tier = args[i + 1]; del args[i:i + 2]
     names = args or sorted(n for n in os.listdir(D) if os.path.isdir(os.path.join(D, n)))
     rp = os.path.join(D, "RESULTS.json")
-    allres = json.load(open(rp)) if os.path.exists(rp) else {}
+    allres = {}
     for name in names:
         d = os.path.join(D, name)
         meta = json.load(open(os.path.join(d, "meta.json")))
@@ -36,8 +36,12 @@ def main():
         finally:
             shutil.rmtree(tmp, ignore_errors=True)
     subprocess.run(["git", "checkout", "--", "evidence"], cwd=HERE)
-    with open(rp, "w") as f:
-        json.dump(allres, f, indent=1, sort_keys=True); f.write("\n")
+    with open(rp + ".lock", "w") as lk:
+        fcntl.flock(lk, fcntl.LOCK_EX)
+        old = json.load(open(rp)) if os.path.exists(rp) else {}
+        old.update(allres)
+        with open(rp, "w") as f:
+            json.dump(old, f, indent=1, sort_keys=True); f.write("\n")
 
 if __name__ == "__main__":
     main()
